@@ -2,63 +2,8 @@
 package main
 
 import (
-	"flag"
-	"fmt"
-	"io"
-	"os"
-	"sort"
-
-	"k8s.io/klog/v2"
-
 	_ "verif/mc/checks"
-	"verif/mc/registry"
+	"verif/mc/cli"
 )
 
-func main() {
-	if len(os.Args) < 2 {
-		fmt.Fprintln(os.Stderr, "usage: check <id> [--tier quick|thorough] [--replay f]")
-		os.Exit(2)
-	}
-	id := os.Args[1]
-	fs := flag.NewFlagSet("check", flag.ExitOnError)
-	tier := fs.String("tier", "quick", "quick|thorough")
-	replay := fs.String("replay", "", "replay file")
-	_ = fs.Parse(os.Args[2:])
-	if t := os.Getenv("VERIF_TIER"); t != "" && !flagSet(fs, "tier") {
-		*tier = t
-	}
-	klog.SetOutput(io.Discard)
-	klog.LogToStderr(false)
-
-	if id == "list" {
-		ids := []string{}
-		for k := range registry.Checks {
-			ids = append(ids, k)
-		}
-		sort.Strings(ids)
-		fmt.Println(ids)
-		return
-	}
-	if *replay != "" {
-		if f, ok := registry.Replays[id]; ok {
-			os.Exit(f(*replay))
-		}
-		fmt.Fprintf(os.Stderr, "no replay for %s\n", id)
-		os.Exit(2)
-	}
-	if f, ok := registry.Checks[id]; ok {
-		os.Exit(f(*tier))
-	}
-	fmt.Fprintf(os.Stderr, "unknown property %s\n", id)
-	os.Exit(2)
-}
-
-func flagSet(fs *flag.FlagSet, name string) bool {
-	set := false
-	fs.Visit(func(f *flag.Flag) {
-		if f.Name == name {
-			set = true
-		}
-	})
-	return set
-}
+func main() { cli.Main() }
